@@ -105,7 +105,8 @@ class Bytes(V):
 
 @dataclass(frozen=True, eq=False)
 class Str(V):
-    s: object  # z3 String
+    s: object  # UTF-8 bytes as z3 Seq(BitVec 8)
+    cps: object = None  # optional: the string's Unicode scalar values (tuple of z3 Int) when it was built from code points
 
     def __repr__(self):
         return f"Str({self.s})"
